@@ -174,7 +174,7 @@ def run(R):
         for h, body, tails in natural_loops(fn):
             t = fn.term(h) or {}
             c = comparison_of(t.get("cond"), True, lambda x: isinstance(strip_casts(x), dict) and strip_casts(x).get("k") == "var")
-            if not (c and c[0] == "<" and isinstance(strip_casts(c[1]), dict) and strip_casts(c[1]).get("vid") == cnts[0]):
+            if not (c and c[0] in ("<", "!=") and isinstance(strip_casts(c[1]), dict) and strip_casts(c[1]).get("vid") == cnts[0]):
                 continue
             iv = strip_casts(c[2])
             # induction variable starts at 0 and only ever advances by one: the loop visits every index
